@@ -1,4 +1,4 @@
 SPECIFICATION Spec
-CONSTANTS NC = 2  NT = 2  MaxVeto = 1  LogBeforeWrite = TRUE  HonourVeto = TRUE  CloseConnOnVeto = TRUE  DrainOnEOF = FALSE  LateVetoCloses = TRUE  GenHist = FALSE
+CONSTANTS NC = 2  NT = 2  MaxVeto = 1  LogBeforeWrite = TRUE  HonourVeto = TRUE  CloseConnOnVeto = TRUE  DrainOnEOF = FALSE  LateVetoCloses = TRUE  HookMax = 2  PutbackFirst = TRUE  GenHist = FALSE
 INVARIANTS NoViolation NoViolationAtEnd
 CHECK_DEADLOCK FALSE
